@@ -516,13 +516,13 @@ Lemma rk_cas_gen : forall fuel now k v e n st nx,
   | None => (mkR (mkSrv st []) nx, ONotExist)
   end.
 Proof.
-  intros. rewrite cas_loop_S. unfold add_watch.
-  cbn [run_prog srv_cmd r_srv r_nxt store watches].
+  intros. rewrite cas_loop_S.
+  cbn [run_prog srv_cmd r_srv r_nxt store watches]. unfold add_watch.
   rewrite (s_find_store now (rKey k) st _ []).
   destruct (s_find now (rKey k) (mkSrv st [])) as [y|]; cbn [option_map].
   - destruct (Nat.eqb (p_ver (e_pl y)) n).
-    + cbn [run_prog srv_cmd r_srv r_nxt conn_dirty w_conn w_dirty Nat.eqb andb orb store watches].
-      unfold do_set. cbn [store watches]. rewrite unwatch_touch_single.
+    + cbn [run_prog srv_cmd r_srv r_nxt store watches]. unfold add_watch.
+      cbn [conn_dirty w_conn w_dirty Nat.eqb andb orb]. unfold do_set. cbn [store watches]. rewrite unwatch_touch_single.
       cbn [run_prog srv_cmd r_srv r_nxt store watches unwatch filter]. reflexivity.
     + cbn [run_prog srv_cmd r_srv r_nxt store watches unwatch filter w_conn Nat.eqb negb]. reflexivity.
   - cbn [run_prog srv_cmd r_srv r_nxt store watches unwatch filter w_conn Nat.eqb negb]. reflexivity.
@@ -623,4 +623,202 @@ Proof.
     + rewrite Nat.add_succ_r.
       eapply rinv_mono; [|apply Nat.le_refl|exact Hr'].
       unfold rs_floor. cbn [fold_right snd]. lia.
+Qed.
+
+Lemma prefix_len_all : forall rs, forallb noexp rs = true -> prefix_len rs = length rs.
+Proof.
+  induction rs as [|r t IH]; intros H; cbn [forallb prefix_len length] in *; [reflexivity|].
+  apply andb_prop in H. destruct H as [H1 H2]. rewrite H1, (IH H2). reflexivity.
+Qed.
+
+(* MSET of the prepared arguments = the records written one after the other (none has an expiration) *)
+Lemma do_mset_sets : forall now rs nx sv, forallb noexp rs = true ->
+  do_mset now (mset_list rs nx) sv = sets now rs nx sv.
+Proof.
+  induction rs as [|[[k v] [e|]] t IH]; intros nx sv H; cbn [forallb noexp snd andb] in H; try discriminate;
+    cbn [mset_list do_mset sets expiration]; [reflexivity|].
+  apply IH. exact H.
+Qed.
+
+Lemma puts_run : forall now rs sv nx,
+  run_prog now now 0 (puts_prog rs) (mkR sv nx) = (mkR (sets now rs nx sv) (nx + length rs), OOk).
+Proof.
+  induction rs as [|[[k v] e] t IH]; intros sv nx; cbn [puts_prog put_prog run_prog srv_cmd sets length r_srv r_nxt].
+  - rewrite Nat.add_0_r. reflexivity.
+  - rewrite IH, Nat.add_succ_r. reflexivity.
+Qed.
+
+(* the whole PutMany: the records are written one after the other with consecutive new version ids
+   m, m+1, ... (m is past the ids the abandoned MSET preparation may have used up) *)
+Lemma rk_putmany_run : forall now rs sv nx, exists m, nx <= m /\
+  rk_step (mkR sv nx) now now (PutMany rs) = (mkR (sets now rs m sv) (m + length rs), OOk).
+Proof.
+  intros now rs sv nx. unfold rk_step, rk_prog, rk_putmany. rewrite mset_args_run. cbn [rev app].
+  destruct (forallb noexp rs) eqn:E.
+  - destruct rs as [|[[k v] e] t].
+    + exists nx. split; [apply Nat.le_refl|]. cbn [mset_list puts_prog run_prog prefix_len sets length].
+      rewrite Nat.add_0_r. reflexivity.
+    + exists nx. split; [apply Nat.le_refl|].
+      rewrite (prefix_len_all _ E). rewrite <- (do_mset_sets now _ nx sv E).
+      cbn [forallb noexp snd andb] in E. destruct e as [e|]; [discriminate|].
+      cbn [mset_list run_prog srv_cmd r_srv r_nxt]. reflexivity.
+  - exists (nx + prefix_len rs). split; [apply Nat.le_add_r|]. apply puts_run.
+Qed.
+
+Lemma putmany_ok : forall f lo sp rs now l, rinv f lo sp (r_srv rs) (r_nxt rs) -> (lo <= now)%Z ->
+  Forall (fun r => clean (fst (fst r))) l -> step_ok f lo sp rs now (PutMany l).
+Proof.
+  intros f lo sp [[st ws] nx] now l Hi Hlo Hc. cbn [r_srv r_nxt] in Hi.
+  pose proof (ri_watch _ _ _ _ _ Hi) as Hw. cbn [watches] in Hw. subst ws.
+  destruct (rk_putmany_run now l (mkSrv st []) nx) as [m [Hm Hrun]].
+  destruct (sets_rel now l f lo sp st nx m Hi Hm Hc) as [f' [Ha Hr]].
+  exists f'. split; [exact Ha|]. cbn [ren_op step op_floor]. rewrite Hrun.
+  cbn [fst snd r_srv r_nxt ren_out]. split; [reflexivity|exact Hr].
+Qed.
+
+(** every operation *)
+Lemma op_ok : forall f lo sp rs now o, rinv f lo sp (r_srv rs) (r_nxt rs) -> (lo <= now)%Z ->
+  op_clean o -> cas_issued (next sp) o -> step_ok f lo sp rs now o.
+Proof.
+  intros f lo sp rs now o Hi Hlo Hc Hv. destruct o; cbn [op_clean cas_issued] in Hc, Hv.
+  - apply create_ok; assumption.
+  - apply get_ok; assumption.
+  - apply getmany_ok; assumption.
+  - apply put_ok; assumption.
+  - apply putmany_ok; assumption.
+  - apply cas_ok; assumption.
+  - apply delete_ok; assumption.
+  - apply listkeys_ok; assumption.
+Qed.
+
+(** ** the versions that occur in a result *)
+Definition orec_ver (r : orec) : nat := let '(_, _, n, _) := r in n.
+
+Definition out_vers (o : out) : list nat :=
+  match o with
+  | OVer n | OExist n => [n]
+  | ORec r => [orec_ver r]
+  | ORecs rs => flat_map (fun x => match x with Some r => [orec_ver r] | None => [] end) rs
+  | _ => []
+  end.
+
+Lemma ren_out_ext : forall f g o, (forall n, In n (out_vers o) -> g n = f n) -> ren_out g o = ren_out f o.
+Proof.
+  intros f g o H. destruct o; cbn [ren_out out_vers] in *; try reflexivity.
+  - rewrite H by (left; reflexivity). reflexivity.
+  - rewrite H by (left; reflexivity). reflexivity.
+  - destruct r as [[[k v] n] e]. cbn [ren_orec orec_ver] in *. rewrite H by (left; reflexivity). reflexivity.
+  - f_equal. induction rs as [|[r|] t IH]; cbn [map option_map flat_map] in *; [reflexivity| |].
+    + destruct r as [[[k v] n] e]. cbn [ren_orec orec_ver app] in *. rewrite (H n) by (left; reflexivity).
+      f_equal. apply IH. intros n' Hn. apply H. right. exact Hn.
+    + f_equal. apply IH. intros n' Hn. apply H. exact Hn.
+Qed.
+
+Lemma next_step_le : forall s now o, next s <= next (fst (step s now o)).
+Proof.
+  intros s now o. destruct o; cbn [step].
+  - destruct (find now k s); cbn; lia.
+  - destruct (find now k s); cbn; lia.
+  - cbn; lia.
+  - cbn; lia.
+  - cbn [fst]. rewrite next_put_many. lia.
+  - destruct (find now k s) as [r|]; [|cbn; lia]. destruct (Nat.eqb (ver r) expected); cbn; lia.
+  - destruct (find now k s); cbn; lia.
+  - cbn; lia.
+Qed.
+
+(* every version in a result was handed out by the time the operation is over *)
+Lemma out_vers_bound : forall s now o n, fresh s -> In n (out_vers (snd (step s now o))) ->
+  n < next (fst (step s now o)).
+Proof.
+  intros s now o n Hf. destruct o; cbn [step]; unfold write.
+  - destruct (find now k s) as [r|] eqn:E; cbn [fst snd out_vers next].
+    + intros [<-|[]]. apply (find_ver_range s now k r Hf E).
+    + intros [<-|[]]. lia.
+  - destruct (find now k s) as [r|] eqn:E; cbn [fst snd out_vers as_orec orec_ver]; [|intros []].
+    intros [<-|[]]. apply (find_ver_range s now k r Hf E).
+  - cbn [fst snd out_vers]. induction ks as [|k t IH]; cbn [map flat_map]; [intros []|].
+    intros Hin. apply in_app_or in Hin. destruct Hin as [Hin|Hin]; [|auto].
+    destruct (find now k s) as [r|] eqn:E; cbn [option_map as_orec orec_ver] in Hin; [|destruct Hin].
+    destruct Hin as [<-|[]]. apply (find_ver_range s now k r Hf E).
+  - cbn [fst snd out_vers orec_ver next]. intros [<-|[]]. lia.
+  - cbn [snd out_vers]. intros [].
+  - destruct (find now k s) as [r|] eqn:E; cbn [fst snd out_vers]; [|intros []].
+    destruct (Nat.eqb (ver r) expected); cbn [fst snd out_vers orec_ver next]; [|intros []].
+    intros [<-|[]]. lia.
+  - destruct (find now k s); cbn [snd out_vers]; intros [].
+  - cbn [snd out_vers]. intros [].
+Qed.
+
+(** ** whole runs *)
+
+(* The premises under which the Redis client is compared with the contract, for a run that starts
+   in contract state [s] with every earlier write judged alike from instant [lo] on:
+   - the instants do not decrease, and no operation takes place inside the minimum-TTL window of an
+     earlier write: a record written at [t] whose ExpiresAt is less than 1 ms after [t] (in particular:
+     already past) lives on the server until t + 1 ms (expiration() never passes less than one
+     millisecond), although the contract says it is gone at ExpiresAt; the next operation comes
+     after t + 1 ms ([floor_after], [op_floor]);
+   - keys have no leading slash and patterns are in the common glob dialect (D10) ([op_clean]);
+   - a version passed to CasByVersion was handed out before, or is 0 = a string the storage never
+     issued ([cas_issued]). *)
+Fixpoint redis_ok (lo : Z) (s : state) (ops : list (Z * op)) : Prop :=
+  match ops with
+  | [] => True
+  | (now, o) :: t =>
+      (lo <= now)%Z /\ op_clean o /\ cas_issued (next s) o /\
+      redis_ok (Z.max lo (op_floor now o)) (fst (step s now o)) t
+  end.
+
+Lemma redis_ok_mono : forall ops lo s, redis_ok lo s ops -> mono lo ops.
+Proof.
+  induction ops as [|[now o] t IH]; intros lo s H; cbn [redis_ok mono] in *; [exact I|].
+  destruct H as [H1 [_ [_ H4]]]. split; [exact H1|].
+  apply IH in H4. clear IH. pose proof (op_floor_ge now o) as Hge.
+  destruct t as [|[now' o'] t']; cbn [mono] in *; [exact I|]. destruct H4 as [H5 H6]. split; [lia|exact H6].
+Qed.
+
+Definition ren_ops (g : nat -> nat) (ops : list (Z * op)) : list (Z * Z * op) :=
+  map (fun no => (fst no, fst no, ren_op g (snd no))) ops.
+
+Definition inj_below (g : nat -> nat) (n : nat) : Prop :=
+  forall v v', 0 < v < n -> 0 < v' < n -> g v = g v' -> v = v'.
+
+Lemma rk_run_sim : forall ops f lo sp rs, rinv f lo sp (r_srv rs) (r_nxt rs) -> redis_ok lo sp ops ->
+  exists g, (forall x, x < next sp -> g x = f x) /\ g 0 = 0 /\
+    inj_below g (next (snd (run sp ops))) /\
+    fst (rk_run rs (ren_ops g ops)) = map (ren_out g) (fst (run sp ops)).
+Proof.
+  induction ops as [|[now o] t IH]; intros f lo sp rs Hi Hok; cbn [redis_ok] in Hok.
+  - exists f. cbn [ren_ops map rk_run run fst snd]. split; [auto|]. split; [apply (ri_f0 _ _ _ _ _ Hi)|].
+    split; [exact (ri_inj _ _ _ _ _ Hi)|reflexivity].
+  - destruct Hok as [Hlo [Hc [Hv Hok]]].
+    destruct (op_ok f lo sp rs now o Hi Hlo Hc Hv) as [f' [Ha [Ho Hi']]].
+    pose proof (next_step_le sp now o) as Hle.
+    pose proof (out_vers_bound sp now o) as Hb. specialize (fun n => Hb n (ri_fresh _ _ _ _ _ Hi)).
+    destruct (IH f' _ (fst (step sp now o)) (fst (rk_step rs now now (ren_op f o))) Hi' Hok) as [g [Hg [Hg0 [Hinj Hrun]]]].
+    exists g. split; [|split; [exact Hg0|]].
+    + intros x Hx. rewrite Hg by lia. apply Ha. exact Hx.
+    + assert (Hop : ren_op g o = ren_op f o).
+      { destruct o; cbn [ren_op cas_issued] in *; try reflexivity. rewrite Hg by lia. rewrite Ha by exact Hv. reflexivity. }
+      cbn [ren_ops map fst snd rk_run run]. fold (ren_ops g t). rewrite Hop.
+      destruct (rk_step rs now now (ren_op f o)) as [rs' x] eqn:Er.
+      destruct (step sp now o) as [sp' y] eqn:Es. cbn [fst snd] in *.
+      destruct (rk_run rs' (ren_ops g t)) as [xs rf]. destruct (run sp' t) as [ys sf]. cbn [fst snd map] in *.
+      split; [exact Hinj|]. rewrite Hrun, Ho. f_equal. symmetry. apply ren_out_ext.
+      intros n Hn. apply Hg. apply Hb. exact Hn.
+Qed.
+
+(** For every operation sequence inside the premises [redis_ok] the Redis client, run sequentially
+    against the command processor with synchronised clocks, returns exactly what the contract
+    prescribes, up to a renaming [g] of the contract's versions that is injective on the versions
+    handed out (and keeps 0, the never-issued version). *)
+Theorem redis_refines_kv : forall ops t0, redis_ok t0 init ops ->
+  exists g, g 0 = 0 /\ inj_below g (next (snd (run init ops))) /\
+    fst (rk_run_sync rk_new (map (fun no => (fst no, ren_op g (snd no))) ops)) = map (ren_out g) (fst (run init ops)).
+Proof.
+  intros ops t0 Hok.
+  destruct (rk_run_sim ops (fun v => v) t0 init rk_new (rinv_init t0) Hok) as [g [_ [Hg0 [Hinj Hrun]]]].
+  exists g. split; [exact Hg0|]. split; [exact Hinj|].
+  unfold rk_run_sync. rewrite map_map. exact Hrun.
 Qed.
